@@ -482,6 +482,26 @@ pub fn ring_lc_ops(s: &mut Src) -> R {
     ob!(same(&c, &ddif), "Lc::sub_assign::coefficientwise-difference-no-zero-stored");
     let c = a.combine(&b, |x, y| x.clone() * y.clone());
     ob!(same(&c, &dmul), "Lc::combine::bilinear-extension-no-zero-stored");
+    // the map family: coefficients / generators mapped termwise, terms that become zero vanish, generators that collide add up
+    let q = s.small(1, 3);
+    let fc = |c: i64| c.rem_euclid(q + 1) - 1;                       // hits 0 for some non-zero coefficients
+    let mut dmc = [0i64; 2 * N]; for i in 0..2 * N { if da[i] != 0 { dmc[i] = fc(da[i]); } }
+    ob!(same(&a.map_coeffs(|c| fc(*c)), &dmc), "Lc::map_coeffs::termwise-no-zero-stored");
+    ob!(same(&a.clone().into_map_coeffs(fc), &dmc), "Lc::into_map_coeffs::termwise-no-zero-stored");
+    let fg = |i: usize| i / 2;                                         // generators collide
+    let mut dmg = [0i64; 2 * N]; for i in 0..2 * N { dmg[fg(i)] += da[i]; }
+    let deg = |x: &X| (0..2 * N).find(|&i| X::from(i) == *x).unwrap();
+    ob!(same(&a.map_gens(|x| X::from(fg(deg(x)))), &dmg), "Lc::map_gens::colliding-generators-add-up-no-zero-stored");
+    ob!(same(&a.clone().into_map_gens(|x| X::from(fg(deg(&x)))), &dmg), "Lc::into_map_gens::colliding-generators-add-up-no-zero-stored");
+    let mut dmm = [0i64; 2 * N]; for i in 0..2 * N { if da[i] != 0 { dmm[fg(i)] += fc(da[i]); } }
+    ob!(same(&a.map(|x, c| (X::from(fg(deg(x))), fc(*c))), &dmm), "Lc::map::termwise-then-collected");
+    ob!(same(&a.clone().into_map(|x, c| (X::from(fg(deg(&x))), fc(c))), &dmm), "Lc::into_map::termwise-then-collected");
+    let mut dfl = [0i64; 2 * N]; for i in 0..2 * N { if i % 2 == 0 { dfl[i] = da[i]; } }
+    ob!(same(&a.filter_gens(|x| deg(x) % 2 == 0), &dfl), "Lc::filter_gens::keeps-exactly-the-selected-terms");
+    ob!(same(&a.clone().into_filter_gens(|x| deg(x) % 2 == 0), &dfl), "Lc::into_filter_gens::keeps-exactly-the-selected-terms");
+    // apply: linear extension of x_i |-> b shifted by i  (= the product again)
+    let ap = a.apply(|x| { let i = deg(x); L::from_iter(tb[..nb].iter().map(|&(j, c)| (X::from(i + j), c))) });
+    ob!(same(&ap, &dmul), "Lc::apply::linear-extension-no-zero-stored");
     Ok(())
 }
 
